@@ -80,6 +80,12 @@ func (g *Gen) lookupContract(fn *ssa.Function) *Contract {
 
 func (g *Gen) lookupInvokeContract(c *ssa.CallCommon) (*Contract, string) {
 	full := c.Method.FullName()
+	// interfaces declared in the repository: contract written next to the interface, keyed (Iface).Method
+	if n, ok := c.Value.Type().(*types.Named); ok && n.Obj().Pkg() != nil && isRepoPkg(n.Obj().Pkg()) {
+		if ct, ok := g.w.contracts[n.Obj().Pkg().Path()+"::("+n.Obj().Name()+")."+c.Method.Name()]; ok {
+			return ct, full
+		}
+	}
 	if ct, ok := g.w.prelude[full]; ok {
 		return ct, full
 	}
@@ -153,6 +159,16 @@ func (f *Frame) call(c *ssa.CallCommon, instr ssa.Value, st *State, reach string
 					return Val{Sort: "Int", Term: v, GoT: resT}
 				}
 			}
+		case "(github.com/cosmos/cosmos-sdk/types.Coins).Add":
+			if len(args) == 2 && args[1].Elems != nil {
+				g.useTheory("coins")
+				g.trusted["(github.com/cosmos/cosmos-sdk/types.Coins).Add"] = true
+				cur := args[0].Term
+				for _, e := range args[1].Elems {
+					cur = fmt.Sprintf("(Coins_add %s (Coins_one (T_sdk_Coin_Denom %s) (T_sdk_Coin_Amount %s)))", cur, e.Term, e.Term)
+				}
+				return Val{Sort: "Coins", Term: g.def(f.name(instr), "Coins", cur), GoT: resT}
+			}
 		case "github.com/cosmos/cosmos-sdk/types.NewCoins":
 			if len(args) == 1 && args[0].Elems != nil {
 				g.useTheory("coins")
@@ -220,6 +236,9 @@ func (f *Frame) call(c *ssa.CallCommon, instr ssa.Value, st *State, reach string
 func (f *Frame) callStatic(fn *ssa.Function, args []Val, resT types.Type, st *State, reach string, pos token.Pos, rname string) Val {
 	g := f.g
 	ct := g.lookupContract(fn)
+	if ct != nil && ct.Iterates {
+		return f.applyIterates(ct, fn, args, resT, st, reach, pos, rname)
+	}
 	if ct != nil && !ct.Inline && fn != g.top {
 		names := paramNames(fn)
 		return f.applyContract(ct, fn.String(), names, fn.Signature, args, st, reach, pos, rname)
@@ -783,6 +802,11 @@ func (f *Frame) sprintf(c *ssa.CallCommon, args []Val, rname string) (Val, bool)
 		sorts = append(sorts, e.Sort)
 		terms = append(terms, e.Term)
 	}
+	if format == "%d" && len(elems) == 1 && elems[0].Sort == "Int" {
+		// decimal rendering: the same symbol in both string modes (strconv.ParseInt inverts it, theory strings)
+		g.useTheory("strings")
+		return Val{Sort: "Str", Term: g.def(f.prefix+rname, "Str", fmt.Sprintf("(itoa %s)", elems[0].Term)), GoT: types.Typ[types.String]}, true
+	}
 	name := g.uf("sprintf_"+mangle(format), sorts, "Str")
 	term := name
 	if len(terms) > 0 {
@@ -895,7 +919,34 @@ func (f *Frame) codecCall(c *ssa.CallCommon, args []Val, instr ssa.Value, st *St
 		if args[2].Ptr.Cell != nil && len(args[2].Ptr.Path) == 0 {
 			el = args[2].Ptr.Cell.goT
 		}
-		g.store(st, args[2].Ptr, Val{Sort: srt, Term: g.def(f.name(instr)+"_dec", srt, fmt.Sprintf("(unmarshal_%s %s)", mangle(srt), args[1].Term)), GoT: el})
+		dec := g.def(f.name(instr)+"_dec", srt, fmt.Sprintf("(unmarshal_%s %s)", mangle(srt), args[1].Term))
+		if el != nil {
+			for _, inv := range g.typeInv(dec, el, 0) {
+				g.assume(inv) // a decoded message is a well-formed Go value
+			}
+		}
+		// slices inside a freshly decoded message are freshly allocated (offset 0), with the decoded contents
+		if info := g.sorts.structs[srt]; info != nil {
+			cur := dec
+			for i, fld := range info.Fields {
+				esort, isSlice := g.sorts.sliceEl[fld.Sort]
+				if !isSlice {
+					continue
+				}
+				h := g.sorts.heapFor(fld.Sort)
+				loc := g.allocLoc(st)
+				arr := g.fresh(f.name(instr)+"_"+fld.Name+"_arr", "(Array Int "+esort+")")
+				src := fmt.Sprintf("(%s %s)", fld.Sel, dec)
+				g.assume(fmt.Sprintf("(forall ((i Int)) (! (= (select %s i) (sget_%s %s %s i)) :pattern ((select %s i))))", arr, fld.Sort, g.heapGet(st, h), src, arr))
+				capc := g.fresh(f.name(instr)+"_"+fld.Name+"_cap", "Int")
+				g.assume(fmt.Sprintf("(>= %s (len_%s %s))", capc, fld.Sort, src))
+				g.heapSet(st, h, fmt.Sprintf("(store %s %s %s)", g.heapGet(st, h), loc, arr))
+				hdr := fmt.Sprintf("(mk_%s %s 0 (len_%s %s) %s)", fld.Sort, loc, fld.Sort, src, capc)
+				cur = g.def(f.name(instr)+"_dec_"+fld.Name, srt, g.updatePath(cur, []pathStep{{srt, i}}, hdr))
+			}
+			dec = cur
+		}
+		g.store(st, args[2].Ptr, Val{Sort: srt, Term: dec, GoT: el})
 		if name == "Unmarshal" {
 			return g.freshVal(f.name(instr), types.Universe.Lookup("error").Type(), st), true
 		}
@@ -921,4 +972,69 @@ func (g *Gen) worldAvailable(name string) bool {
 		}
 	}
 	return true
+}
+
+// applyIterates: a call of an iterator function f(..., closure). The closure is
+// verified on its own against its contract; its `preserves` clauses are the
+// invariant of the iteration: checked in the caller's state before the call
+// and assumed after it, everything the closure may modify being havocked in
+// between (A-ITER: the iterator applies the closure to the stored elements and
+// does nothing else).
+func (f *Frame) applyIterates(ct *Contract, fn *ssa.Function, args []Val, resT types.Type, st *State, reach string, pos token.Pos, rname string) Val {
+	g := f.g
+	ct.used = true
+	g.trusted[fn.String()+" (iterator: applies the closure to each stored element, A-ITER)"] = true
+	var clo *Closure
+	for _, a := range args {
+		if a.Clo != nil {
+			clo = a.Clo
+		}
+	}
+	if clo == nil {
+		g.fail("%s: iterator call without a closure literal", relName(f.fn))
+	}
+	cct := g.lookupContract(clo.Fn)
+	if cct == nil {
+		g.fail("%s: the closure %s handed to an iterator has no contract", relName(f.fn), relName(clo.Fn))
+	}
+	bindClo := func(e *Env) {
+		for i, fv := range clo.Fn.FreeVars {
+			v := clo.Bindings[i]
+			if v.Ptr != nil && v.Ptr.Cell != nil && len(v.Ptr.Path) == 0 {
+				e.cellVars[fv.Name()] = v.Ptr.Cell
+			} else {
+				e.vars[fv.Name()] = v
+			}
+		}
+		for _, l := range cct.Lets {
+			e.lets[l.Name] = l.Expr
+		}
+	}
+	for _, u := range cct.Uses {
+		g.useTheory(u)
+	}
+	pre := st.clone()
+	env := g.newEnv(pre, pre)
+	bindClo(env)
+	for _, c := range cct.Preserves {
+		t := env.trBool(c.Expr)
+		g.oblige("callpre", shortKey(relName(clo.Fn))+":"+c.Label+"_holds_before_the_iteration", f.props(), f.fn, reach, t, c.Src, pos)
+	}
+	// everything the closure may touch
+	f.havocAll(st)
+	for _, b := range clo.Bindings {
+		f.havocReachable(b, st)
+	}
+	post := g.newEnv(st, pre)
+	bindClo(post)
+	for _, c := range cct.Preserves {
+		g.assume(implies(reach, post.trBool(c.Expr)))
+	}
+	if resT == nil {
+		return Val{}
+	}
+	if tup, ok := resT.(*types.Tuple); ok && tup.Len() == 0 {
+		return Val{}
+	}
+	return g.freshVal(f.prefix+rname, resT, st)
 }
